@@ -1,28 +1,34 @@
 """C18 — read-only operations do not change scenarios or planning problems.
 oracle: random sequences (<= 10) of read-only operations on generated scenarios and on scenarios obtained by
-        reading a written XML / protobuf file; after every operation the structural snapshot (raw stored data,
-        caches excluded, attribute sets of states, dict key sets, container types) and the exported XML and
-        protobuf bytes (date aside) are compared with those taken before the sequence.
-corr:   Model/ReadOnly.v run by vm_compute on the same sequences predicts the part of the observation the anchored
-        mechanisms can touch: attribute-name lists of the trajectory states and the goal-lanelet tables (container
-        kind + keys) after every operation (Corr/C18.v)."""
+        reading a written XML / protobuf file; after every operation, and after each of the two exports that follow
+        it, the structural snapshot (raw stored data, caches excluded, attribute sets of states, dict key sets,
+        container types) is compared with the one taken before the sequence, and the exported XML and protobuf
+        bytes (date aside) with the first export.  The snapshot code is the harness's own (reads instance
+        dictionaries and slots only), so whatever changes is attributed to the operation that ran last.
+corr:   Model/ReadOnly.v run by vm_compute on the same sequences predicts, after every step, the attribute-name
+        lists of all trajectory states, every goal-lanelet table (container kind + items), and which caches /
+        lazily filled fields exist with which contents (occupancy sets, lanelet distances, spatial index, memoised
+        light-cycle times); compared inside Coq with what is read off the real objects (Corr/C18.v)."""
+import atexit
+import contextlib
 import copy
 import enum
 import hashlib
-import json
-import math
+import io
+import logging
 import os
 import pickle
 import random
 import re
 import shutil
 import tempfile
+import warnings
 from collections import defaultdict
 
 import numpy as np
 
 from vlib import scen
-from vlib.core import outcome_of, qz, qb, qlist, qstr
+from vlib.core import outcome_of, qz, qb, qlist, qopt, sha
 from vlib.flow import load_corpus
 
 from props import c11_objs as O
@@ -32,29 +38,35 @@ from commonroad.common.file_writer import CommonRoadFileWriter
 from commonroad.common.util import FileFormat, Interval
 from commonroad.common.writer.file_writer_interface import OverwriteExistingFile
 from commonroad.geometry.shape import Circle, Rectangle
-from commonroad.planning.planning_problem import PlanningProblemSet
-from commonroad.prediction.prediction import TrajectoryPrediction
-from commonroad.scenario.obstacle import DynamicObstacle, ObstacleType
+from commonroad.prediction.prediction import SetBasedPrediction, TrajectoryPrediction
+from commonroad.scenario.obstacle import (DynamicObstacle, EnvironmentObstacle, ObstacleType, PhantomObstacle,
+                                          StaticObstacle)
 from commonroad.scenario.scenario import Scenario, ScenarioID, Tag
 from commonroad.scenario.state import CustomState, InitialState, KSState
 from commonroad.scenario.trajectory import Trajectory
 
 RULE = ("cases = (scenario seed, source in {generated, read back from XML, read back from protobuf}, <= 10 read-only "
-        "ops) over: scenario / obstacle occupancy and state queries, occupancy_set, lanelet lookup by position / shape, "
-        "lanelet distance / polygon / interpolate, traffic-light state, is_reached / goal_reached, == and != on "
-        "scenario, planning problems and parts, hash of every part (TypeError guarded), str / repr, copy.deepcopy, "
-        "pickle dumps+loads, draw + render (MPRenderer, Agg), XML write, protobuf write.  Scenarios contain the four "
-        "obstacle roles, trajectories of KS / PM / ST / custom states incl. custom states with velocity_y and no "
-        "orientation, goal regions with partial lanelet tables.  distinct = distinct case dicts; non-trivial = the "
-        "sequence contains an occupancy query, a writer, a copy or a draw")
+        "ops) over: scenario / obstacle occupancy and state queries, occupancy_set, lanelet lookup by position / shape / "
+        "id, obstacles_by_position_intervals, lanelet distance / inner_distance / polygon / interpolate / contains / "
+        "get_obstacles, traffic-light state, is_reached / goal_reached (random states and the scenario's own states and "
+        "trajectories), == and != on scenario, planning problems and parts, hash of every part (TypeError guarded), "
+        "str / repr, copy.copy, copy.deepcopy, pickle dumps+loads, draw + render (MPRenderer, Agg), XML write, protobuf "
+        "write; every op is followed by an XML and a protobuf export.  Scenarios contain the four obstacle roles, "
+        "trajectories of KS / PM / ST / custom states incl. custom states with velocity + velocity_y and no orientation "
+        "(and, rarely, with neither), goal regions with partial lanelet tables.  distinct = distinct case dicts; "
+        "non-trivial = the sequence contains an occupancy query, a lanelet / light query, a copy or a draw")
 ASSUME = ["observe = structural snapshot of every stored attribute reachable from the scenario and the planning "
-          "problem set, except the cache fields (occupancy_set, _initial_occupancy_shape, lanelet _polygon / "
+          "problem set (instance dictionaries and slots, recursively; numpy arrays by value and dtype; container types "
+          "and dict key sets), except the cache fields (occupancy_set, _initial_occupancy_shape, lanelet _polygon / "
           "_distance / _inner_distance, network _buffered_polygons / _strtee / _lanelet_id_index_by_id, "
           "_cycle_init_timesteps, shape vertices / shapely objects), plus exported XML and protobuf bytes with the date "
           "removed",
           "an exception raised by a read-only operation is not judged here (C01-C03, C12, C19 judge totality); the "
           "comparison is made all the same",
-          "each export uses a new writer object with the same arguments (C15 judges writer reuse)"]
+          "each export uses a new writer object with the same arguments (C15 judges writer reuse)",
+          "Coq model: which occupancy sets / lanelet distances / light cycles the renderer asks for is an oracle input of "
+          "the Draw operation (read off the real objects); shape-level caches (Rectangle._vertices, shapely objects) "
+          "and numeric contents of occupancies / distances are outside the model"]
 
 # cache fields by (class name, attribute) or attribute alone
 SKIP = set(scen.CACHE_FIELDS) | {"_Rectangle__shapely_polygon", "_shapely_circle"}
@@ -100,7 +112,27 @@ def snapshot(obj, _depth=0):
     return out
 
 
+@contextlib.contextmanager
+def quiet():
+    """the writers print to stdout"""
+    prev = logging.root.manager.disable
+    logging.disable(logging.CRITICAL)
+    try:
+        with contextlib.redirect_stdout(io.StringIO()), warnings.catch_warnings():
+            warnings.simplefilter("ignore")
+            yield
+    finally:
+        logging.disable(prev)
+
+
 # ------------------------------------------------------------------------------------------ scenarios
+def headless_traj(rng, t0, n):
+    """custom states with a position and a velocity only: no heading can be derived for them"""
+    x, y = scen.rnd(rng, -5, 10), scen.rnd(rng, 0, 6)
+    return Trajectory(t0, [CustomState(time_step=t0 + i, position=np.array([round(x + 1.5 * i, 3), y]),
+                                       velocity=scen.rnd(rng, 1, 9)) for i in range(n)])
+
+
 def gen_scenario(rng):
     net = scen.rand_network(rng)
     sc = Scenario(0.1, ScenarioID(False, "ZAM", "Test", rng.randint(1, 9), rng.randint(1, 9), "T", 1),
@@ -116,20 +148,38 @@ def gen_scenario(rng):
         t0 = rng.choice([0, 0, 2])
         shape = scen.rand_shape(rng, ("rect", "circ"))
         init = scen.rand_state(rng, InitialState, t0)
-        traj = O.gen_traj(rng, t0 + 1, rng.randint(1, 4), "custom_vy")
+        n = rng.randint(1, 4)
+        traj = O.gen_traj(rng, t0 + 1, n, "custom_vy")
+        if rng.random() < 0.3:   # mixed: some states have an orientation already
+            for st in traj.state_list[: rng.randint(1, n)]:
+                if rng.random() < 0.6:
+                    st.add_attribute("orientation")
+                    st.set_value("orientation", scen.rnd(rng, -3, 3))
         sc.add_objects(DynamicObstacle(oid, ObstacleType.CAR, shape, init, TrajectoryPrediction(traj, shape)))
+        oid += 1
+    if rng.random() < 0.12:
+        t0 = rng.choice([0, 2])
+        shape = scen.rand_shape(rng, ("rect", "circ"))
+        traj = headless_traj(rng, t0 + 1, rng.randint(1, 3))
+        if rng.random() < 0.5:   # the first state has both velocity components, the rest none
+            traj.state_list[0].add_attribute("velocity_y")
+            traj.state_list[0].set_value("velocity_y", 0.5)
+        sc.add_objects(DynamicObstacle(oid, ObstacleType.CAR, shape, scen.rand_state(rng, InitialState, t0),
+                                       TrajectoryPrediction(traj, shape)))
     ids = [la.lanelet_id for la in sc.lanelet_network.lanelets]
     pps = scen.rand_planning_problem_set(rng, lanelet_ids=ids)
     return sc, pps
 
 
 def export_bytes(sc, pps, fmt, workdir):
-    """the file a new writer produces, date removed; ('ok', digest) | ('exc', name)"""
+    """the file a new writer produces, date removed; ['ok', digest] | ['exc', name]"""
     path = os.path.join(workdir, "x.xml" if fmt == "xml" else "x.pb")
     try:
-        w = CommonRoadFileWriter(sc, pps, "a", "b", "c", {Tag.URBAN},
-                                 file_format=FileFormat.XML if fmt == "xml" else FileFormat.PROTOBUF)
-        w.write_to_file(path, OverwriteExistingFile.ALWAYS)
+        with quiet():
+            # author / affiliation / source / tags differ from the scenario's own: the writer must not store them
+            w = CommonRoadFileWriter(sc, pps, "wa", "wb", "wc", {Tag.INTERSTATE},
+                                     file_format=FileFormat.XML if fmt == "xml" else FileFormat.PROTOBUF)
+            w.write_to_file(path, OverwriteExistingFile.ALWAYS)
         data = open(path, "rb").read()
     except Exception as e:  # noqa  (totality of the writers is C01-C03's business)
         return ["exc", type(e).__name__]
@@ -155,18 +205,120 @@ def make(case, workdir):
     fmt = FileFormat.XML if src == "xml" else FileFormat.PROTOBUF
     path = os.path.join(workdir, "src.xml" if src == "xml" else "src.pb")
     try:
-        CommonRoadFileWriter(sc, pps, "a", "b", "c", {Tag.URBAN}, file_format=fmt).write_to_file(
-            path, OverwriteExistingFile.ALWAYS)
-        return CommonRoadFileReader(path).open()
+        with quiet():
+            CommonRoadFileWriter(sc, pps, "a", "b", "c", {Tag.URBAN}, file_format=fmt).write_to_file(
+                path, OverwriteExistingFile.ALWAYS)
+            return CommonRoadFileReader(path).open()
     except Exception:  # noqa  (a generated scenario the format cannot hold: judged by C01-C03; use it as generated)
-        return sc, pps
+        rng = random.Random(case["seed"])
+        return gen_scenario(rng)
+
+
+# ------------------------------------------------------------------------------------------ model state
+_ATTR = {"position": "Position", "orientation": "Orientation", "velocity": "Velocity", "velocity_y": "VelocityY"}
+_OTHER = {}
+
+
+def q_attr(name):
+    if name in _ATTR:
+        return _ATTR[name]
+    if name not in _OTHER:
+        _OTHER[name] = len(_OTHER) + 1
+    return f"(Other {_OTHER[name]})"
+
+
+def q_nat(k):
+    return f"{int(k)}%nat"
+
+
+def zl(xs):
+    return qlist([qz(x) for x in xs])
+
+
+def m_tstate(st):
+    prop = isinstance(getattr(type(st), "orientation", None), property)
+    return [int(st.time_step), list(vars(st).keys()), prop]
+
+
+def m_pred(p):
+    if p is None:
+        return ["none"]
+    if isinstance(p, TrajectoryPrediction):
+        occ = p.__dict__.get("occupancy_set")
+        return ["traj", [m_tstate(st) for st in p.trajectory.state_list],
+                None if occ is None else [int(o.time_step) for o in occ]]
+    return ["set", [int(o.time_step) for o in p._occupancy_set]]
+
+
+def m_obst(o):
+    if isinstance(o, StaticObstacle):
+        return ["Static", int(o.initial_state.time_step), ["none"]]
+    if isinstance(o, DynamicObstacle):
+        return ["Dynamic", int(o.initial_state.time_step), m_pred(o._prediction)]
+    if isinstance(o, PhantomObstacle):
+        return ["Phantom", 0, m_pred(o._prediction)]
+    return ["Env", 0, ["none"]]
+
+
+def m_state(sc, pps):
+    """the model state (Model/ReadOnly.v) read off the real objects; raw fields only"""
+    net = sc.lanelet_network
+    lls = [[int(la.lanelet_id), la._distance is not None, la._inner_distance is not None] for la in net.lanelets]
+    tree = None
+    if getattr(net, "_strtee", None) is not None:
+        idx = net._lanelet_id_index_by_id
+        geoms = list(net._strtee.geometries)
+        tree = [int(idx[id(g)]) for g in geoms] if all(id(g) in idx for g in geoms) else \
+            ["unindexed"] * len(geoms)
+    lights = []
+    for t in net.traffic_lights:
+        cy = t.traffic_light_cycle
+        if cy is None:
+            lights.append(None)
+        else:
+            cum = cy.__dict__.get("_cycle_init_timesteps")
+            lights.append([[int(e.duration) for e in cy.cycle_elements], int(cy.time_offset),
+                           None if cum is None else [int(x) for x in cum]])
+    goals = []
+    for pp in pps.planning_problem_dict.values():
+        tab = pp.goal._lanelets_of_goal_position
+        kind = "none" if tab is None else "default" if isinstance(tab, defaultdict) else "dict"
+        goals.append([len(pp.goal.state_list), kind,
+                      [] if tab is None else [[int(k), [int(x) for x in v]] for k, v in tab.items()]])
+    return {"obst": [m_obst(o) for o in sc.obstacles], "lanelets": lls,
+            "buffered": [int(k) for k in net._buffered_polygons.keys()], "tree": tree, "lights": lights,
+            "goals": goals}
+
+
+def q_tstate(t):
+    return f"(Build_tstate {qz(t[0])} {qlist([q_attr(a) for a in t[1]])} {qb(t[2])})"
+
+
+def q_pred(p):
+    if p[0] == "none":
+        return "PNone"
+    if p[0] == "set":
+        return f"(PSet {zl(p[1])})"
+    return f"(PTraj {qlist([q_tstate(t) for t in p[1]])} {qopt(p[2], zl)})"
+
+
+def q_state(m):
+    obst = qlist([f"(Build_obst {o[0]} {qz(o[1])} {q_pred(o[2])})" for o in m["obst"]])
+    lls = qlist([f"(Build_lanelet {qz(x[0])} {qb(x[1])} {qb(x[2])})" for x in m["lanelets"]])
+    lights = qlist(["None" if c is None else f"(Some (Build_cycle {zl(c[0])} {qz(c[1])} {qopt(c[2], zl)}))"
+                    for c in m["lights"]])
+    tree = m["tree"]
+    if tree is not None and any(x == "unindexed" for x in tree):
+        tree = [-1] * len(tree)
+    net = f"(Build_net {lls} {zl(m['buffered'])} {qopt(tree, zl)} {lights})"
+    kv = lambda items: qlist([f"({qz(k)}, {zl(v)})" for k, v in items])  # noqa
+    goals = qlist([f"(Build_goal {q_nat(g[0])} "
+                   + ("TNone" if g[1] == "none" else f"(TDefault {kv(g[2])})" if g[1] == "default"
+                      else f"(TDict {kv(g[2])})") + ")" for g in m["goals"]])
+    return f"(Build_scen {obst} {net} {goals})"
 
 
 # ------------------------------------------------------------------------------------------ read-only operations
-def _obstacles(sc):
-    return sc.obstacles
-
-
 def _pick(xs, i):
     return xs[i % len(xs)] if xs else None
 
@@ -178,106 +330,203 @@ def _try_hash(x):
         pass
 
 
-def apply_op(sc, pps, op, workdir, other):
+def _index(sc, o):
+    for k, x in enumerate(sc.obstacles):
+        if x is o:
+            return k
+    raise ValueError("obstacle not contained")
+
+
+def _has_headless(sc):
+    for o in sc.dynamic_obstacles:
+        if isinstance(o.prediction, TrajectoryPrediction):
+            for st in o.prediction.trajectory.state_list:
+                if not hasattr(st, "orientation") and not (hasattr(st, "velocity_y") and hasattr(st, "velocity")):
+                    return True
+    return False
+
+
+def _own_state(sc, pps, sel):
+    """a state object that belongs to the scenario / the planning problems"""
+    cands = [pp.initial_state for pp in pps.planning_problem_dict.values()]
+    for o in sc.dynamic_obstacles + sc.static_obstacles:
+        cands.append(o.initial_state)
+        if isinstance(getattr(o, "prediction", None), TrajectoryPrediction):
+            cands.extend(o.prediction.trajectory.state_list)
+    return _pick(cands, sel)
+
+
+def prims(sc, pps, op, workdir, other):
+    """the primitive calls of a harness operation: list of (model op term | callable(before, after) | None, thunk)"""
     name = op[0]
     net = sc.lanelet_network
+    out = []
     if name == "occs":
-        sc.occupancies_at_time_step(op[1])
+        out.append((f"(OccsAt {qz(op[1])})", lambda: sc.occupancies_at_time_step(op[1])))
     elif name == "occ":
-        o = _pick(_obstacles(sc), op[1])
+        o = _pick(sc.obstacles, op[1])
         if o is not None:
-            o.occupancy_at_time(op[2])
+            out.append((f"(OccAt {q_nat(_index(sc, o))} {qz(op[2])})", lambda: o.occupancy_at_time(op[2])))
     elif name == "occset":
-        o = _pick(sc.dynamic_obstacles, op[1])
-        if o is not None and o.prediction is not None:
-            len(o.prediction.occupancy_set)
+        o = _pick([x for x in sc.dynamic_obstacles if x.prediction is not None], op[1])
+        if o is not None:
+            out.append((f"(OccSet {q_nat(_index(sc, o))})", lambda: len(o.prediction.occupancy_set)))
     elif name == "state":
         o = _pick(sc.dynamic_obstacles + sc.static_obstacles, op[1])
         if o is not None:
-            o.state_at_time(op[2])
+            out.append((f"(StateAt {q_nat(_index(sc, o))} {qz(op[2])})", lambda: o.state_at_time(op[2])))
     elif name == "states":
-        sc.obstacle_states_at_time_step(op[1])
+        out.append((f"(StatesAt {qz(op[1])})", lambda: sc.obstacle_states_at_time_step(op[1])))
     elif name == "by_pos":
         lls = net.lanelets
         pts = [np.array(_pick(lls, i).center_vertices[j % len(_pick(lls, i).center_vertices)][:2]) + np.array([dx, dy])
                for i, j, dx, dy in op[1]]
-        net.find_lanelet_by_position(pts)
-        sc.obstacles_by_position_intervals([Interval(-10, 30), Interval(-5, 10)])
+        out.append(("FindPos", lambda: net.find_lanelet_by_position(pts)))
+        if _has_headless(sc):
+            # an AttributeError would end the loop over the obstacles half way: ask at time 0, before every prediction
+            out.append((None, lambda: sc.obstacles_by_position_intervals([Interval(-10, 30), Interval(-5, 10)])))
+        else:
+            t = op[2]
+            for o in sc.dynamic_obstacles:   # one call; written as the occupancy queries it makes
+                out.append((f"(OccAt {q_nat(_index(sc, o))} {qz(t)})", None))
+            out.append((None, lambda: sc.obstacles_by_position_intervals([Interval(-10, 30), Interval(-5, 10)],
+                                                                         time_step=t)))
     elif name == "by_shape":
         la = _pick(net.lanelets, op[1])
         c = np.array(la.center_vertices[op[2] % len(la.center_vertices)][:2])
-        net.find_lanelet_by_shape(Rectangle(op[3], op[4], c, op[5]) if op[6] == "rect" else Circle(op[3], c))
+        shp = Rectangle(op[3], op[4], c, op[5]) if op[6] == "rect" else Circle(op[3], c)
+        out.append(("FindShape", lambda: net.find_lanelet_by_shape(shp)))
     elif name == "lanelet":
-        la = _pick(net.lanelets, op[1])
-        la.distance, la.inner_distance, la.polygon.vertices
-        la.interpolate_position(float(la.distance[-1]) * op[2])
-        la.contains_points(np.array([la.center_vertices[0][:2]]))
-        net.find_lanelet_by_id(la.lanelet_id)
-        net.map_inc_lanelets_to_intersections
-        la.get_obstacles([o for o in sc.dynamic_obstacles + sc.static_obstacles], op[3])
+        k = op[1] % len(net.lanelets)
+        la = net.lanelets[k]
+
+        def q():
+            la.distance, la.inner_distance, la.polygon.vertices
+            la.interpolate_position(float(la.distance[-1]) * op[2])
+            la.contains_points(np.array([la.center_vertices[0][:2]]))
+        out.append((f"(LaneletQ {q_nat(k)})", q))
+        out.append(("FindId", lambda: (net.find_lanelet_by_id(la.lanelet_id), net.map_inc_lanelets_to_intersections)))
+        obs = sc.dynamic_obstacles + sc.static_obstacles
+        out.append((f"(GetObstacles {qlist([q_nat(_index(sc, o)) for o in obs])} {qz(op[3])})",
+                    lambda: la.get_obstacles(obs, op[3])))
+    elif name == "interp":
+        k = op[1] % len(net.lanelets)
+        la = net.lanelets[k]
+        out.append((f"(LaneletDist {q_nat(k)})", lambda: la.interpolate_position(0.0)))
     elif name == "light":
-        t = _pick(net.traffic_lights, op[1])
-        if t is not None and t.traffic_light_cycle is not None:
-            t.get_state_at_time_step(op[2])
+        if net.traffic_lights:
+            k = op[1] % len(net.traffic_lights)
+            t = net.traffic_lights[k]
+            if t.traffic_light_cycle is not None and t.traffic_light_cycle.cycle_elements:
+                out.append((f"(LightAt {q_nat(k)} {qz(op[2])})", lambda: t.get_state_at_time_step(op[2])))
     elif name == "is_reached":
         pp = _pick(list(pps.planning_problem_dict.values()), op[1])
         rng = random.Random(op[2])
-        st = scen.rand_state(rng, rng.choice([KSState, InitialState, scen.PMState, scen.STState]), rng.randint(0, 30))
-        pp.goal.is_reached(st)
+        if len(op) > 3 and op[3] is not None:
+            st = _own_state(sc, pps, op[3])
+        else:
+            st = scen.rand_state(rng, rng.choice([KSState, InitialState, scen.PMState, scen.STState]),
+                                 rng.randint(0, 30))
+        out.append(("IsReached", lambda: pp.goal.is_reached(st)))
     elif name == "goal_reached":
         pp = _pick(list(pps.planning_problem_dict.values()), op[1])
         rng = random.Random(op[2])
-        pp.goal_reached(scen.rand_trajectory(rng, rng.randint(0, 5), rng.randint(1, 5), rng.choice([KSState, scen.STState])))
+        own = [o.prediction.trajectory for o in sc.dynamic_obstacles
+               if isinstance(o.prediction, TrajectoryPrediction)]
+        if len(op) > 3 and op[3] is not None and own:
+            traj = _pick(own, op[3])
+        else:
+            traj = scen.rand_trajectory(rng, rng.randint(0, 5), rng.randint(1, 5), rng.choice([KSState, scen.STState]))
+        out.append(("GoalReached", lambda: pp.goal_reached(traj)))
     elif name == "eq":
-        sc == other[0], pps == other[1], sc != other[0], sc == sc, pps == pps
-        for a, b in zip(_obstacles(sc), _obstacles(other[0])):
-            a == b
-        net == other[0].lanelet_network
+        def q():
+            sc == other[0], pps == other[1], sc != other[0], sc == sc, pps == pps
+            for a, b in zip(sc.obstacles, other[0].obstacles):
+                a == b
+            net == other[0].lanelet_network
+        out.append(("EqOp", q))
     elif name == "hash":
-        for x in [sc, pps, net, sc.scenario_id] + _obstacles(sc) + net.lanelets + net.traffic_lights + \
-                net.traffic_signs + net.intersections + list(pps.planning_problem_dict.values()):
-            _try_hash(x)
-        for pp in pps.planning_problem_dict.values():
-            _try_hash(pp.goal)
-            _try_hash(pp.initial_state)
-        for o in sc.dynamic_obstacles:
-            _try_hash(o.prediction)
-            if isinstance(o.prediction, TrajectoryPrediction):
-                _try_hash(o.prediction.trajectory)
+        def q():
+            for x in [sc, pps, net, sc.scenario_id] + sc.obstacles + net.lanelets + net.traffic_lights + \
+                    net.traffic_signs + net.intersections + list(pps.planning_problem_dict.values()):
+                _try_hash(x)
+            for pp in pps.planning_problem_dict.values():
+                _try_hash(pp.goal)
+                _try_hash(pp.initial_state)
+            for o in sc.dynamic_obstacles:
+                _try_hash(o.prediction)
+                if isinstance(o.prediction, TrajectoryPrediction):
+                    _try_hash(o.prediction.trajectory)
+        out.append(("HashOp", q))
     elif name == "str":
-        str(sc), repr(net), str(pps)
-        for o in _obstacles(sc):
-            str(o), repr(o)
-        for pp in pps.planning_problem_dict.values():
-            str(pp.goal.state_list), repr(pp.initial_state)
+        def q():
+            str(sc), repr(net), str(pps)
+            for o in sc.obstacles:
+                str(o), repr(o)
+            for pp in pps.planning_problem_dict.values():
+                str(pp.goal.state_list), repr(pp.initial_state)
+        out.append(("StrOp", q))
     elif name == "deepcopy":
-        copy.deepcopy(sc), copy.deepcopy(pps), copy.deepcopy(net), copy.copy(sc)
+        out.append(("DeepCopy", lambda: (copy.deepcopy(sc), copy.deepcopy(pps), copy.deepcopy(net))))
+        out.append(("ShallowCopy", lambda: (copy.copy(sc), copy.copy(pps))))
     elif name == "pickle":
-        pickle.loads(pickle.dumps(sc)), pickle.loads(pickle.dumps(pps))
+        out.append(("Pickle", lambda: (pickle.loads(pickle.dumps(sc)), pickle.loads(pickle.dumps(pps)))))
     elif name == "draw":
-        import matplotlib.pyplot as plt
-        from commonroad.visualization.mp_renderer import MPRenderer
-        fig = plt.figure(figsize=(3, 2))
-        try:
-            rnd = MPRenderer(ax=fig.gca())
-            rnd.draw_params.time_begin = op[1]
-            rnd.draw_params.time_end = op[1] + op[2]
-            sc.draw(rnd)
-            pps.draw(rnd)
-            rnd.render()
-        finally:
-            plt.close(fig)
+        def q():
+            import matplotlib.pyplot as plt
+            from commonroad.visualization.mp_renderer import MPRenderer
+            fig = plt.figure(figsize=(3, 2))
+            try:
+                with quiet():
+                    rnd = MPRenderer(ax=fig.gca())
+                    rnd.draw_params.time_begin = op[1]
+                    rnd.draw_params.time_end = op[1] + op[2]
+                    sc.draw(rnd)
+                    pps.draw(rnd)
+                    rnd.render()
+            finally:
+                plt.close(fig)
+
+        def term(before, after):
+            occ = [k for k, (a, b) in enumerate(zip(before["obst"], after["obst"]))
+                   if a[2][0] == "traj" and a[2][2] is None and b[2][0] == "traj" and b[2][2] is not None]
+            dist = [k for k, (a, b) in enumerate(zip(before["lanelets"], after["lanelets"])) if not a[1] and b[1]]
+            cum = [k for k, (a, b) in enumerate(zip(before["lights"], after["lights"]))
+                   if a is not None and b is not None and a[2] is None and b[2] is not None]
+            nl = lambda ks: qlist([q_nat(k) for k in ks])  # noqa
+            return f"(Draw {nl(occ)} {nl(dist)} {nl(cum)})"
+        out.append((term, q))
     elif name == "xml_write":
-        export_bytes(sc, pps, "xml", workdir)
+        out.append(("XmlWrite", lambda: export_bytes(sc, pps, "xml", workdir)))
     elif name == "pb_write":
-        export_bytes(sc, pps, "pb", workdir)
+        out.append(("PbWrite", lambda: export_bytes(sc, pps, "pb", workdir)))
     else:
         raise ValueError(name)
+    return out
 
 
-def observe(sc, pps, workdir):
-    return {"snap": [snapshot(sc), snapshot(pps)], "xml": export_bytes(sc, pps, "xml", workdir),
-            "pb": export_bytes(sc, pps, "pb", workdir)}
+PREDICTED = ("(OccAt", "(OccsAt", "(OccSet", "(GetObstacles", "FindPos", "FindShape", "(LightAt")
+
+
+def apply_op(sc, pps, op, workdir, other, want_model=False):
+    """runs the primitive calls (each guarded); returns (model op terms, raised-by-a-predicted-op, exception names)"""
+    terms, raised, excs = [], False, []
+    for term, thunk in prims(sc, pps, op, workdir, other):
+        before = m_state(sc, pps) if want_model and callable(term) else None
+        r = ("ok", None)
+        if thunk is not None:
+            with warnings.catch_warnings():
+                warnings.simplefilter("ignore")
+                r = outcome_of(thunk)
+        if r[0] == "exc":
+            excs.append(r[1])
+        if callable(term):
+            term = term(before, m_state(sc, pps)) if want_model else None
+        if term is not None:
+            terms.append(term)
+            if r[0] == "exc" and term.startswith(PREDICTED):
+                raised = True
+    return terms, raised, excs
 
 
 def first_diff(a, b):
@@ -292,27 +541,52 @@ def classify(path):
     return ".".join(tail[-2:]) if tail else "?"
 
 
-def run_case(case, workdir, on_step=None):
-    """returns None | (signature, what); on_step(op, sc, pps, err) is called after every operation"""
+def run_case(case, workdir, want_model=False):
+    """returns (None | (signature, what), trace); trace = (initial model state, [(op terms, raised, model state)])"""
     sc, pps = make(case, workdir)
     other = copy.deepcopy((sc, pps))
-    before = observe(sc, pps, workdir)
-    for i, op in enumerate(case["ops"]):
-        r = outcome_of(apply_op, sc, pps, op, workdir, other)
-        if on_step is not None:
-            on_step(op, sc, pps, r[0] == "exc")
-        after = observe(sc, pps, workdir)
-        d = first_diff(before["snap"], after["snap"])
+    src = case["source"]
+    s0 = [snapshot(sc), snapshot(pps)]
+    m0 = m_state(sc, pps) if want_model else None
+    steps = []
+    first = {}
+
+    def changed(opname, i, opdesc, exc=None):
+        d = first_diff(s0, [snapshot(sc), snapshot(pps)])
         if d:
-            return (f"{op[0]}:{case['source']}:{classify(d)}",
-                    f"step {i} {op} on a scenario (seed {case['seed']}, {case['source']}) changed stored data: {d[:200]}"
-                    + (f" (the operation raised {r[1]})" if r[0] == "exc" else ""))
+            return (f"{opname}:{src}:{classify(d)}",
+                    f"step {i} {opdesc} on a scenario (seed {case['seed']}, {src}) changed stored data: {d[:200]}"
+                    + (f" (the operation raised {exc})" if exc else ""))
+        return None
+
+    def exports(i, opdesc):
+        """the two exports that follow every step: each must leave the data alone and equal the first export"""
         for fmt in ("xml", "pb"):
-            if before[fmt] != after[fmt]:
-                return (f"{op[0]}:{case['source']}:export-{fmt}",
-                        f"step {i} {op} on a scenario (seed {case['seed']}, {case['source']}): the exported {fmt} file "
-                        f"differs from the export before the sequence ({before[fmt]} -> {after[fmt]})")
-    return None
+            e = export_bytes(sc, pps, fmt, workdir)
+            r = changed(f"{fmt}_write", i, f"{fmt} export after {opdesc}")
+            if r:
+                return r
+            if fmt not in first:
+                first[fmt] = e
+            elif e != first[fmt]:
+                return (f"{opdesc[0] if isinstance(opdesc, list) else 'export'}:{src}:export-{fmt}",
+                        f"step {i} {opdesc} on a scenario (seed {case['seed']}, {src}): the exported {fmt} file "
+                        f"differs from the export before the sequence ({first[fmt]} -> {e})")
+        return None
+
+    r = exports(-1, "the start")
+    if r:
+        return r, None
+    if want_model:   # the first exports are part of the history the model replays
+        steps.append(([], False, m_state(sc, pps)))
+    for i, op in enumerate(case["ops"]):
+        terms, raised, excs = apply_op(sc, pps, op, workdir, other, want_model)
+        r = changed(op[0], i, op, excs[0] if excs else None) or exports(i, op)
+        if r:
+            return r, None
+        if want_model:
+            steps.append((terms, raised, m_state(sc, pps)))
+    return None, (m0, steps)
 
 
 _WORK = None
@@ -321,20 +595,20 @@ _WORK = None
 def workdir():
     global _WORK
     if _WORK is None:
-        base = "/var/tmp/g5" if os.path.isdir("/var/tmp/g5") else tempfile.gettempdir()
-        _WORK = tempfile.mkdtemp(prefix="c18-", dir=base)
+        _WORK = tempfile.mkdtemp(prefix="c18-run-", dir="/var/tmp" if os.path.isdir("/var/tmp") else None)
+        atexit.register(shutil.rmtree, _WORK, True)
     return _WORK
 
 
 def oracle(case):
-    return run_case(case, workdir())
+    return run_case(case, workdir())[0]
 
 
 # ------------------------------------------------------------------------------------------ generators
-OPS = ["occs", "occs", "occ", "occ", "occset", "occset", "state", "states", "by_pos", "by_shape", "lanelet", "light",
-       "is_reached", "goal_reached", "eq", "hash", "str", "deepcopy", "pickle", "xml_write", "xml_write", "pb_write",
-       "pb_write", "pb_write", "draw"]
-HEAVY = {"occs", "occ", "occset", "xml_write", "pb_write", "deepcopy", "pickle", "draw"}
+OPS = ["occs", "occs", "occ", "occ", "occset", "occset", "state", "states", "by_pos", "by_shape", "lanelet", "interp",
+       "light", "light", "is_reached", "is_reached", "goal_reached", "eq", "hash", "str", "deepcopy", "pickle",
+       "xml_write", "pb_write", "pb_write", "draw"]
+HEAVY = {"occs", "occ", "occset", "lanelet", "interp", "light", "deepcopy", "pickle", "draw", "by_pos"}
 
 
 def gen_op(rng):
@@ -347,16 +621,18 @@ def gen_op(rng):
         return [name, rng.randint(0, 9)]
     if name == "by_pos":
         return [name, [[rng.randint(0, 20), rng.randint(0, 8), scen.rnd(rng, -2, 2), scen.rnd(rng, -2, 2)]
-                       for _ in range(rng.randint(1, 3))]]
+                       for _ in range(rng.randint(1, 3))], rng.randint(0, 6)]
     if name == "by_shape":
         return [name, rng.randint(0, 20), rng.randint(0, 8), scen.rnd(rng, 0.5, 5), scen.rnd(rng, 0.5, 3),
                 scen.rnd(rng, -3, 3), rng.choice(["rect", "circ"])]
     if name == "lanelet":
         return [name, rng.randint(0, 20), scen.rnd(rng, 0, 1), rng.randint(0, 5)]
+    if name == "interp":
+        return [name, rng.randint(0, 20)]
     if name == "light":
         return [name, rng.randint(0, 5), rng.randint(0, 60)]
     if name in ("is_reached", "goal_reached"):
-        return [name, rng.randint(0, 3), rng.getrandbits(30)]
+        return [name, rng.randint(0, 3), rng.getrandbits(30), rng.randint(0, 30) if rng.random() < 0.6 else None]
     if name == "draw":
         return [name, rng.randint(0, 3), rng.randint(0, 4)]
     return [name]
@@ -384,3 +660,90 @@ def nontrivial(case):
 
 def kind(case):
     return case["source"]
+
+
+def shrink(case):
+    """cut the sequence after the failing step, then drop operations while the signature stays the same"""
+    base = oracle(case)
+    if not base:
+        return case
+    ops = list(case["ops"])
+    for k in range(len(ops) + 1):
+        r = oracle(dict(case, ops=ops[:k]))
+        if r and r[0] == base[0]:
+            ops = ops[:k]
+            break
+    i = 0
+    while i < len(ops) - 1:
+        trial = ops[:i] + ops[i + 1:]
+        r = oracle(dict(case, ops=trial))
+        if r and r[0] == base[0]:
+            ops = trial
+        else:
+            i += 1
+    return dict(case, ops=ops)
+
+
+# ------------------------------------------------------------------------------------------ correspondence
+def q_case(trace):
+    m0, steps = trace
+    return ("(" + q_state(m0) + ", " + qlist([f"(mkStep {qlist(terms)} {qb(raised)} {q_state(m)})"
+                                              for terms, raised, m in steps]) + ")")
+
+
+def corr(ctx, traces, cases):
+    imports = ("From Coq Require Import ZArith List Bool NArith PArith.\nImport ListNotations.\n"
+               "From CR Require Import Model.ReadOnly Corr.C18.\nOpen Scope Z_scope.\n")
+    terms = [q_case(t) for t in traces]
+    bad, errors = ctx.coq_bad_indices("corr", imports, "", terms, "check", shard=ctx.n(25, 60))
+    ctx.coverage["correspondence_sequences"] = len(terms)
+    ctx.coverage["correspondence_steps"] = sum(len(t[1]) for t in traces)
+    for e in errors:
+        ctx.corr_break("Corr.C18.check (coqc failed)", e)
+    for i in bad:
+        ctx.corr_break("Corr.C18.check: Model/ReadOnly.v vs the real scenario / planning problems (state attribute "
+                       "names, goal-lanelet tables, caches after every step; observation equal to the first)", cases[i])
+    ctx.log(f"corr sequences={len(terms)} steps={ctx.coverage['correspondence_steps']} disagree={len(bad)} "
+            f"coq_errors={len(errors)}")
+
+
+# ------------------------------------------------------------------------------------------ driver
+def run(ctx):
+    warnings.filterwarnings("ignore")
+    ctx.trusted = ["Coq 8.16.1 kernel + vm_compute (no native_compute)",
+                   "axioms: none (Print Assumptions: Closed under the global context for every theorem)",
+                   "hand-written model coq/Model/ReadOnly.v of the side effects of the read-only operations "
+                   "(prediction.py, obstacle.py, scenario.py, lanelet.py, traffic_light.py, goal.py, both writers; line "
+                   "ranges in the file header), tied to the code by the correspondence relation coq/Corr/C18.v on every run",
+                   "harness/props/c18.py (generators, structural snapshot through instance dictionaries / slots, reading of "
+                   "the private cache fields to classify them, Coq term printer), vlib/scen.py, props/c11_objs.py",
+                   "numpy / shapely / STRtree / matplotlib / lxml / protobuf are outside the model; their effect on the "
+                   "objects is covered by the snapshot and export comparison only"]
+    ctx.build_props()
+    if ctx.tier == "thorough":
+        ctx.coqchk()
+    n = ctx.n(260, 4000)
+    wd = workdir()
+    cases, traces = [], []
+    dist = {}
+
+    def run_all(cs, with_model):
+        for c in cs:
+            ctx.count(c, nontrivial(c), kind(c))
+            for op in c["ops"]:
+                dist[op[0]] = dist.get(op[0], 0) + 1
+            failure, trace = run_case(c, wd, want_model=with_model)
+            if failure:
+                ctx.fail(failure[0], failure[1], shrink(c))
+                continue  # the model describes the repaired code; a violating sequence is reported by the oracle
+            if with_model:
+                cases.append(c)
+                traces.append(trace)
+
+    run_all(load_corpus(ctx.prop) + gen(ctx.rng, n), True)
+    ctx.coverage["operations"] = dist
+    corr(ctx, traces if ctx.quick else traces[:1500], cases)
+    if (ctx.proof_breaks or ctx.corr_breaks) and not ctx.failures:
+        ctx.log(f"proof/correspondence broke ({len(ctx.proof_breaks)}/{len(ctx.corr_breaks)}); widening the search")
+        run_all(gen(ctx.rng, n * 3), False)
+    return ctx.finish(RULE, assumptions=ASSUME)
